@@ -19,7 +19,7 @@ LEVEL_TEXT = ("Every case of a finite, explicitly listed product space is execut
               "equality of means, full covariances, output scales and step counts is asserted at every grid point.")
 LEVEL_NOTE = ("Trusted: mpmath arithmetic; the documented semantics of calibration/damping/Jacobian structure as transcribed in mc/refmodel/gauss.py "
               "(self-checked against batch conditioning). Vector fields are polynomial (degree <= 3), times dyadic. Tolerance 1e-8 in step-scaled coordinates.")
-TIMEOUT_S = {"quick": 1500, "thorough": 10800}
+TIMEOUT_S = {"quick": 1800, "thorough": 21600}
 
 SCALE_VEC = [3.0, 0.5, 2.0]
 DAMPS = [0.0, 2.0 ** -10]
